@@ -1,10 +1,10 @@
 #!/bin/bash
-# Development helper: applies a seeded patch to the scratch worktree /tmp/mut-wt (never to /repo) and runs the check there.
+# Development helper: applies a seeded patch to the scratch worktree ${MUT_WT:-/tmp/mut-wt} (never to /repo) and runs the check there.
 #   usage: tools/devseed.sh <dir with patch.diff> <Cxx> [tier]
 cd "$(dirname "$0")/.."
 D="$(cd "$1" && pwd)"; ID="$2"; TIER="${3:-quick}"
-git -C /tmp/mut-wt checkout -q -- . && git -C /tmp/mut-wt apply "$D/patch.diff" || { echo "patch does not apply"; exit 2; }
-out=$(tools/devcheck.sh /tmp/mut-wt "$ID" "$TIER" 2>&1); code=$?
-git -C /tmp/mut-wt checkout -q -- .
+git -C ${MUT_WT:-/tmp/mut-wt} checkout -q -- . && git -C ${MUT_WT:-/tmp/mut-wt} apply "$D/patch.diff" || { echo "patch does not apply"; exit 2; }
+out=$(tools/devcheck.sh ${MUT_WT:-/tmp/mut-wt} "$ID" "$TIER" 2>&1); code=$?
+git -C ${MUT_WT:-/tmp/mut-wt} checkout -q -- .
 echo "$out" | grep -a -E 'key=|^'"$ID"' |INCONCL' | head -6 | cut -c1-250
 echo "DEVSEED $D exit=$code"
